@@ -13,6 +13,7 @@ SimNext ==
   \/ \E w \in W : WCreate(w) /\ Tag("C", w)
   \/ \E w \in W : WRegister(w) /\ Tag("G", w)
   \/ \E w \in W : (WReturn(w) \/ WCreateRefused(w) \/ WDrop(w)) /\ UNCHANGED hist
+  \/ \E w \in W : WCheck(w) /\ Tag("L", w)
   \/ Sigint /\ Tag("X", 0)
   \/ HLock /\ UNCHANGED hist
   \/ HClear /\ Tag("K", 0)
